@@ -111,6 +111,19 @@ def run(plan):
             else:
                 res.fail("a host without a good reply inside the window was reported", f"extra {sorted(extra)}")
             return
+        # a second run in the same process must report the same hosts
+        if plan.get("twice"):
+            for hi, h in enumerate(plan["hosts"]):
+                w.net.udp_hosts[h["ip"]].answered = False
+            o2 = await capture(w, D.discover(auto_connect=False))
+            if o2.kind != "ok":
+                res.fail(f"second discover raised {o2.exc_type}", repr(o2.exc))
+                return
+            if sorted(d.ip for d in o2.value) != sorted(ips):
+                res.fail("a second discovery run in the same process reports different hosts",
+                         f"first {sorted(ips)} second {sorted(d.ip for d in o2.value)}")
+                return
+            w.fire("second_discovery_run")
         by_ip = {d.ip: d for d in o.value}
         for h in plan["hosts"]:
             if h["ip"] in by_ip:
@@ -181,7 +194,7 @@ def space(tier):
             # distinct times per run so that the arrival order is the drawn one
             for c in h["copies"]:
                 c[0] += rng.randrange(0, 64) / 65536
-        return {"hosts": hosts}
+        return {"hosts": hosts, "twice": rng.random() < 0.3}
     sp.add("random", 4000 if tier == "quick" else 400_000, rnd)
 
     def each_bad(j, rng):
